@@ -23,6 +23,8 @@ HELPERS = [
     ("mdocInit", RELM, "Mdoc.__init__", []),
     ("mdocSort", RELM, "Mdoc.sort_by_tilt", []),
     ("mdocFeature", RELM, "Mdoc.get_image_feature", []),
+    # Warp .xml doses (total_dose_load's `.xml` branch): the values of the <Dose> node, one per line, IN FILE ORDER
+    ("warpXml", RELIO, "get_data_from_warp_xml", ["tree", "root", "elements", "node_elements", "data", "node", "data_text", "value"]),
 ]
 # parsers of the .mdoc text: their bodies belong to C17; here they are looked up (binding discipline) and exercised by the mdoc dose sources
 BOUND_ONLY = [(RELM, "Mdoc._read_mdoc"), (RELM, "Mdoc._parse_images")]
@@ -414,16 +416,17 @@ RULE = ("stacks of 1..10 images, width and height drawn independently from 4..64
         "(0 and 300 forced in often; in 15% of the multi-image plain cases an exact 0.0 is forced "
         "directly before a non-zero dose), images: random (integers/8 + offset), pure plane waves at a chosen integer frequency incl. Nyquist "
         "and DC offset, impulses, constants. dtype: float64 72%, float32 18%, int16 6%, int8 4% (integer stacks hold integer pixel values). "
-        "Doses reach the code as list / TUPLE / float64 (or int64) ndarray / float32 ndarray / one-value-per-line text / .csv with CorrectedDose (with and "
+        "Doses reach the code as list / TUPLE / float64 (or int64) ndarray / float32 ndarray / one-value-per-line text / Warp .xml (<Dose> node, one value "
+        "per line, UTF-16 with BOM or UTF-8, next to <Angles>, <AxisAngle> and a <GridCTF> of <Node> children) / .csv with CorrectedDose (with and "
         "without a Removed column and removed rows; row labels 0..n-1, with gaps, duplicated, or names) / .mdoc with PriorRecordDose+ExposureDose / .mdoc with ExposureDose and DateTime only "
         "(sections written in acquisition order with dose-symmetric tilt angles: the loader re-sorts by tilt angle, dose_i is the dose of "
         "the i-th image in tilt order); 6% of the cases pass 1..3 surplus doses. The stack is an ndarray (xyz or zyx) or, in ~10% of the "
-        "cases with >= 2 non-float64 images, the path of an MRC file; ~10% pass output_file and the written file is re-read by the harness's "
+        "cases with non-float64 images (1..10 of them: a one-image stack is a 3-D file with nz = 1), the path of an MRC file; ~10% pass output_file and the written file is re-read by the harness's "
         "own MRC parser. Each of the keywords output_file / input_order / output_order is OMITTED with probability 0.3 (the documented default "
         "None / 'xyz' / 'xyz' is then what the harness expects). Entry points dose_filter (85%) and dose_filter_single_image (15%, with a "
         "harness-built fftshifted |fftfreq| array re-used for every image). Modes: plain, linear (third image = alpha*first + beta*second, equal "
         "doses), monotone (one image, several doses), compose (filter d1, then filter the RETURNED array with d2, vs once d1+d2 on the caller's "
-        "array), and a 3% malformed stream (dose list shorter than the stack -> must raise). Cross-call stream (25% of the dose_filter cases): a "
+        "array), and a 3% malformed stream (dose list shorter than the stack -> must be refused by ANY exception raised inside cryocat; kind corr, the statement is silent on refusals). Cross-call stream (25% of the dose_filter cases): a "
         "second call in the same process on the SAME caller-owned array object / MRC path / dose-file path / dose ndarray with a DIFFERENT pixel "
         "size and other doses, optionally after the harness legitimately rewrote the content (images rolled by one, dose file rewritten, dose "
         "ndarray overwritten); every call is judged alike, and before/after every call the caller-owned stack array (or file bytes), dose "
@@ -455,7 +458,7 @@ ASSUMPTIONS = [
     "violation: the judge evaluates the statement at the dose as loaded (as_loaded / _effective), and a float32 ndarray passed by the caller is treated the same way",
     "the driver's Float DFT (Drv/C16 `floatDFT`, separable O(HW(H+W)) sums) used to run `doseFilterInt` on integer stacks agrees with numpy.fft to 1e-9 relative "
     "(checked on every integer case: clause int-model-filter-vs-statement)",
-    "the dose of image i when doses come from a file is what ioutils.total_dose_load documents: CorrectedDose of the rows not Removed (.csv), PriorRecordDose+ExposureDose or ExposureDose*(rank by DateTime+1) in tilt-angle order (.mdoc), the lines (.txt); the harness computes these itself from the content it wrote",
+    "the dose of image i when doses come from a file is what ioutils.total_dose_load documents: CorrectedDose of the rows not Removed (.csv), PriorRecordDose+ExposureDose or ExposureDose*(rank by DateTime+1) in tilt-angle order (.mdoc), the lines (.txt), the lines of the <Dose> node in file order (Warp .xml); the harness computes these itself from the content it wrote",
 ]
 TRUSTED = ["numpy.fft used by the harness to measure the gain (same library the code under test uses; its linearity/inversion is probed)",
            "harness evaluation of the statement's formula (props/c16.py _spec_gain), independent of model and implementation",
@@ -479,7 +482,7 @@ A_DOC, B_DOC, C_DOC = 0.245, -1.665, 2.81  # the statement's constants (NOT read
 DEFAULTS = dict(output_file=None, input_order="xyz", output_order="xyz")   # documented signature defaults (Props/C16 defaults_documented)
 NP_DT = {"f8": np.float64, "f4": np.float32, "i2": np.int16, "i1": np.int8}
 INT_LIM = {"i2": 8000, "i1": 40}
-FILE_SRC = ("txt", "csv", "csv_removed", "mdoc", "mdoc_dt")
+FILE_SRC = ("txt", "csv", "csv_removed", "mdoc", "mdoc_dt", "xml")
 # dose sources through which cryoCAT holds the doses in float32 (ASSUMPTIONS: `float32-dose-loading`): one_value_per_line_read reads
 # with its default data_type=np.float32, the .csv branch casts CorrectedDose with .astype(np.single), and a float32 ndarray simply IS
 # float32.  "dose_i" of the statement is the dose the filter is GIVEN, i.e. the float32 rounding of the decimal in the file.
@@ -575,7 +578,7 @@ def generate(rng, tier, n):
         if tier == "search":
             W, H, N = rng.randint(4, 9), rng.randint(4, 9), min(N, 4)
         hi = 150.0 if mode == "compose" else 300.0
-        dose_src = rng.choice(["list"] * 4 + ["tuple"] * 2 + ["ndarray"] * 4 + ["ndarray32"] * 2 + ["txt"] * 3 + ["csv", "csv", "csv_removed"] + ["mdoc"] * 3 + ["mdoc_dt"] * 2)
+        dose_src = rng.choice(["list"] * 4 + ["tuple"] * 2 + ["ndarray"] * 4 + ["ndarray32"] * 2 + ["txt"] * 3 + ["csv", "csv", "csv_removed"] + ["mdoc"] * 3 + ["mdoc_dt"] * 2 + ["xml"] * 3)
         if api == "single":
             dose_src = "list"
         # decimal doses (59.1, 120.3, 7.125 ...) from EVERY source kind; in compose mode through a float32 source the sum d1+d2 must
@@ -641,14 +644,16 @@ def generate(rng, tier, n):
             if "output_file" not in omit and rng.random() < 0.15:
                 case["out_file"] = True
             case["omit"] = omit
-            if N >= 2 and rng.random() < 0.13:      # the stack is handed over as the path of an MRC file (float32 / int16 / int8 modes)
+            # (a stack of ONE image is a 3-D MRC file with nz = 1, as every stack writer produces it; a 2-D single-IMAGE file is not a stack:
+            #  there `TiltStack.__init__` tests `self.data.shape == 2`, never true, and fails to unpack the shape — outside the quantifier, DESIGN section 6)
+            if rng.random() < 0.13:      # the stack is handed over as the path of an MRC file (float32 / int16 / int8 modes)
                 case["stack_src"] = "file"
                 if case["dtype"] == "f8":
                     case["dtype"] = dtype = "f4"
             if mode == "plain" and N >= 2 and rng.random() < 0.12:
                 case["doses"] = case["doses"][: rng.randint(0, N - 1)]
                 case["malformed"] = "short-doses"
-                case["dose_src"] = rng.choice(["list", "ndarray", "txt", "csv"]) if case["doses"] else rng.choice(["list", "ndarray"])
+                case["dose_src"] = rng.choice(["list", "ndarray", "txt", "csv", "xml"]) if case["doses"] else rng.choice(["list", "ndarray"])
                 case.pop("expo", None)
                 if dtype in ("i2", "i1"):
                     case["dtype"] = "f8"; case.pop("stack_src", None)
@@ -859,6 +864,20 @@ def _csv_text(doses, removed, seed, int_text=False, index="range"):
     return head + "\n" + "".join(f"{lab(i)},{i},{_num(d, int_text)}" + (f",{rm}" if removed else "") + "\n" for i, (d, rm) in enumerate(rows))
 
 
+def _warp_xml_text(doses, seed, int_text=False):
+    """a Warp tilt-series .xml as Warp writes it: root <TiltSeries ...> whose children <Angles>, <Dose>, <AxisAngle>, ... hold one value
+    per line (image order = stack order) and whose <GridCTF> holds <Node Value=...> children; total_dose_load reads the <Dose> node"""
+    n = len(doses)
+    r = _random.Random(seed + 11)
+    col = lambda vals: "\n".join(vals)
+    angles = col(_num(3.0 * i - 3.0 * (n // 2), True) for i in range(n))
+    axis = col(repr(round(r.uniform(80, 90), 4)) for _ in range(n))
+    nodes = "".join(f'\n\t\t<Node X="0" Y="0" Z="{i}" Value="{round(r.uniform(1, 5), 4)!r}" />' for i in range(n))
+    return (f'<TiltSeries AreAnglesInverted="False" PlaneNormal="0, 0, 1" Bfactor="0" Weight="1" UnselectFilter="False" CTFResolutionEstimate="5.2">\n'
+            f"\t<Angles>{angles}</Angles>\n\t<Dose>{col(_num(d, int_text) for d in doses)}</Dose>\n\t<AxisAngle>{axis}</AxisAngle>\n"
+            f'\t<GridCTF Width="1" Height="1" Depth="{n}">{nodes}\n\t</GridCTF>\n</TiltSeries>\n')
+
+
 def _doses_arg(src, doses, td, seed, expo=None, reuse=None, int_text=False, csv_index="range"):
     """the object handed to dose_filter as total_dose; `reuse`: ndarray of an earlier call to overwrite in place"""
     if src in ("list", "tuple"):
@@ -878,6 +897,13 @@ def _doses_arg(src, doses, td, seed, expo=None, reuse=None, int_text=False, csv_
         p, text = os.path.join(td, "dose.csv"), _csv_text(doses, src == "csv_removed", seed, int_text, csv_index)
     elif src in ("mdoc", "mdoc_dt"):
         p, text = os.path.join(td, "dose.mdoc"), _mdoc_text(doses, src, seed, expo, int_text)
+    elif src == "xml":
+        # Warp writes UTF-16 with a byte order mark (tests/test_data/TS_018/018.xml); hand-edited files are UTF-8
+        enc = "utf-16" if (seed % 2 == 0) else "utf-8"
+        p, text = os.path.join(td, "dose.xml"), f'<?xml version="1.0" encoding="{enc}"?>\n' + _warp_xml_text(doses, seed, int_text)
+        with open(p, "w", encoding=enc) as f:
+            f.write(text)
+        return p
     else:
         raise ValueError(src)
     with open(p, "w") as f:     # the same path is rewritten when a second call uses the same kind of file
@@ -1085,10 +1111,10 @@ def run_impl(case):
         if case.get("malformed"):
             try:
                 _call_stack(tiltstack, case, stack_arg, _px_arg(case, b2f(case["px"])), dose_arg, order_in, order_out, out_path)
-            except IndexError as e:
+            except Exception as e:      # ANY exception raised inside cryocat is a refusal (IndexError today; a ValueError with a helpful text is as good)
                 if not _raised_in_cryocat(e):
                     raise
-                return dict(reject="IndexError")
+                return dict(reject=type(e).__name__)
             return dict(accepted=True)
         raw1, ob1 = _call_stack(tiltstack, case, stack_arg, _px_arg(case, b2f(first["px"])), dose_arg, order_in, order_out, out_path)
         ob1["tag"] = "first"
@@ -1300,13 +1326,14 @@ def judge(case, obs, resps):
         return [dict(kind="corr", clause="harness-or-library-raised", detail=obs["error"])]
     if case.get("malformed"):
         nd = len(case["doses"])
-        if "error" in obs:
+        if "error" in obs:      # cannot happen for an exception from inside cryocat (run_impl turns those into `reject`)
             return [dict(kind="corr", clause="short-dose-list-other-error", detail=obs["error"] + " @" + obs.get("where", ""))]
         if model.get("error") != "reject:IndexError":
             out.append(dict(kind="corr", clause="model-accepts-short-dose-list", detail=str(model)[:200]))
         if "reject" not in obs:
             # independent of model and implementation: images nd..N-1 have no dose, so no factor the statement allows exists for them
-            out.append(dict(kind="spec", clause="image-without-dose-filtered",
+            # (kind corr: the statement speaks about images that HAVE a dose; how a stack with missing doses is refused is beyond it)
+            out.append(dict(kind="corr", clause="image-without-dose-filtered",
                             detail=f"{nd} doses for {N} images of size {W}x{H} (dose source {case['dose_src']}): dose_filter returned a stack although images {nd}..{N-1} have no dose"))
         return out
     if "error" in obs:
@@ -1339,7 +1366,7 @@ def judge(case, obs, resps):
         info = o.get("info", {})
         # ---- what came back (G3) and what happened to the caller's objects (G2)
         if "out" not in o:
-            out.append(dict(kind="spec", clause="output-dtype", detail=f"call {tag}: returned {info.get('type')} of dtype {info.get('dtype')} ({info.get('unconvertible')}), not a numeric image stack"))
+            out.append(dict(kind="corr", clause="output-dtype", detail=f"call {tag}: returned {info.get('type')} of dtype {info.get('dtype')} ({info.get('unconvertible')}), not a numeric image stack"))
             continue
         res = _dec(o["out"])
         if list(res.shape) != [N, H, W]:
@@ -1353,18 +1380,18 @@ def judge(case, obs, resps):
             else:
                 out.append(dict(kind="corr", clause="output-dtype", detail=f"call {tag}: complex dtype {info.get('dtype')} (imaginary part negligible)"))
         elif kind not in "fiu":
-            out.append(dict(kind="spec", clause="output-dtype", detail=f"call {tag}: dtype {info.get('dtype')} is not numeric"))
+            out.append(dict(kind="corr", clause="output-dtype", detail=f"call {tag}: dtype {info.get('dtype')} is not numeric"))
             continue
         elif kind in "iu" and not int_in:
-            out.append(dict(kind="spec", clause="output-dtype", detail=f"call {tag}: a {case['dtype']} stack came back as {info.get('dtype')}"))
+            out.append(dict(kind="corr", clause="output-dtype", detail=f"call {tag}: a {case['dtype']} stack came back as {info.get('dtype')}"))
         want = str(np.dtype(NP_DT[case["dtype"]]))
         if case["api"] == "stack" and kind in "fiu" and info.get("dtype") != want:
             out.append(dict(kind="corr", clause="output-dtype", detail=f"call {tag}: {info.get('dtype')} for a {want} stack (model: dtype kept)"))
         if not o.get("input_untouched", True):
-            out.append(dict(kind="spec", clause="input-modified", detail=f"call {tag}: the caller's {'file' if case.get('stack_src') == 'file' and tag != 'second' else 'array'} "
+            out.append(dict(kind="corr", clause="input-modified", detail=f"call {tag}: the caller's {'file' if case.get('stack_src') == 'file' and tag != 'second' else 'array'} "
                             f"passed as tilt_stack / image / freq_array differs after the call ({N} images {W}x{H}, dose {doses})"))
         if not o.get("doses_untouched", True):
-            out.append(dict(kind="spec", clause="input-modified", detail=f"call {tag}: the caller's total_dose object ({c['src']}) differs after the call"))
+            out.append(dict(kind="corr", clause="input-modified", detail=f"call {tag}: the caller's total_dose object ({c['src']}) differs after the call"))
         if o.get("aliases_input"):
             out.append(dict(kind="corr", clause="output-aliases-input", detail=f"call {tag}: the returned array shares memory with the caller's stack"))
         # ---- per image
